@@ -470,7 +470,23 @@ def _unversion(t):
         return t
     if t and t[0] == 'selfv':
         return ('self', t[1])
-    return tuple(_unversion(x) for x in t)
+    return T.resort(_unv(t)) if _has_v(t) else t
+
+
+def _has_v(t):
+    if not isinstance(t, tuple):
+        return False
+    if t and t[0] == 'selfv':
+        return True
+    return any(_has_v(x) for x in t)
+
+
+def _unv(t):
+    if not isinstance(t, tuple):
+        return t
+    if t and t[0] == 'selfv':
+        return ('self', t[1])
+    return tuple(_unv(x) for x in t)
 
 
 unversion = _unversion
